@@ -921,6 +921,9 @@ func (x *Exec) callWithContract(fu *FuncUnit, uc *UnitContract, recv *Value, arg
 		if !on(en.Tags) {
 			continue
 		}
+		if en.Assumed {
+			x.trustedUsed[fmt.Sprintf("%s/post:%s is assumed, not proved (bounded stand-in): %s", uc.ID(), en.Name, en.Text)] = true
+		}
 		x.assume(st, x.specBool(en, st, sp), "ensures:"+fu.Name+"."+en.Name)
 	}
 	if len(results) == 0 {
